@@ -35,6 +35,11 @@ static uint64_t g_seed = 1;
 static int g_workload = 0;
 static char cur_case[300];
 static const char *lost_key_override = NULL;
+static uint64_t fg_steps;      /* completed API calls of the driving thread (progress measure of the stuck-call watcher) */
+#define STEP() __atomic_add_fetch(&fg_steps, 1, __ATOMIC_RELAXED)
+static uint64_t fg_progress(void) { return __atomic_load_n(&fg_steps, __ATOMIC_RELAXED); }
+static const char *watch_what(void) { return cur_case; }
+static void watch_thread_init(void) { iom_pause(1); }
 
 typedef struct site_s { int op, pc; uint64_t nth; int err, persistent, mode; } site_t;
 
@@ -115,6 +120,7 @@ static void check_read(ldb_t *db, int key, int read_side_fault, const char *when
   ldb_slice_t k = ldb_slice(kb, data_key(kb, key)), v;
   const kstate_t *s = &ks[key];
   int rc = ldb_get(db, &k, &v, NULL), i, ok = 0;
+  STEP();
   if (rc != LDB_OK && rc != LDB_NOTFOUND) {
     reads_err++;
     if (!read_side_fault)
@@ -184,6 +190,7 @@ static int issue_batch(dbh_t *h) {
   }
   wo.sync = b->sync;
   b->rc = ldb_write(h->db, wb, &wo);
+  STEP();
   ldb_batch_destroy(wb);
   apply_batch_to_oracle(b);
   return b->rc;
@@ -214,10 +221,11 @@ static void run_workload(dbh_t *h, int nb, int read_side_fault, runstat_t *st) {
     }
     if (i % 40 == 25) {
       int frc = ldb_test_compact_memtable(h->db);
+      STEP();
       if (frc != LDB_OK) st->flush_errors++;
     }
-    if (i == nb / 2) ldb_test_compact_range(h->db, 0, NULL, NULL);
-    if (i == (3 * nb) / 4) ldb_compact(h->db, NULL, NULL);
+    if (i == nb / 2) { ldb_test_compact_range(h->db, 0, NULL, NULL); STEP(); }
+    if (i == (3 * nb) / 4) { ldb_compact(h->db, NULL, NULL); STEP(); }
   }
 }
 
@@ -248,6 +256,7 @@ static void verify_dir(const char *dir, const cfg_t *cfg, const char *variant, i
   it = ldb_iterator(h.db, NULL);
   for (ldb_iter_first(it); ldb_iter_valid(it); ldb_iter_next(it)) {
     ldb_slice_t k = ldb_iter_key(it), v = ldb_iter_value(it);
+    STEP();
     const char *kp = k.data;
     if (k.size == 10 && kp[0] == 'm' && kp[1] == '/') {
       int id = parse_num(kp + 2, k.size - 2);
@@ -309,6 +318,7 @@ static void verify_dir(const char *dir, const cfg_t *cfg, const char *variant, i
     uint64_t x = 0x1234;
     ldb_slice_t k = ldb_slice(kb, (size_t)sprintf(kb, "z/probe")), v = ldb_slice(&x, 8);
     rc = ldb_put(h.db, &k, &v, NULL);
+    STEP();
     if (rc != LDB_OK)
       vh_violation("C12", "write-fails-after-fault-cleared-and-reopen", "%s %s: put after reopen returned %d", cur_case, variant, rc);
   }
@@ -402,6 +412,15 @@ int main(int argc, char **argv) {
   if (vh_nviolations() > 0) vh_fatal("reference run without faults produced violations");
   vh_count("reference_runs", 1);
 
+  /* "neither crashes nor hangs": from here on a call that does not return is reported on logical grounds
+     (the reference run made `ref_calls` intercepted calls in total; no single call may outlast 3x that, min 60000) */
+  {
+    uint64_t ref_calls = iom_total_calls(), limit = ref_calls * 3 < 60000 ? 60000 : ref_calls * 3;
+    vh_watch_thread_init = watch_thread_init;
+    vh_watch_start("C12", fg_progress, iom_total_calls, limit, watch_what);
+    vh_count("stuck_call_watcher_io_limit", shard == 0 ? limit : 0);
+  }
+
   /* ---- enumerate sites */
   {
     static const int ops[] = {IOP_CREATE, IOP_WRITE, IOP_FSYNC, IOP_RENAME, IOP_UNLINK, IOP_CLOSE, IOP_OPEN, IOP_READ,
@@ -465,6 +484,7 @@ int main(int argc, char **argv) {
     /* the rule is armed before open: faults in database creation count too */
     iom_fault_add(s->op, s->pc, s->nth, s->err, s->persistent, s->mode);
     rc = dbh_open(&h, 1);
+    STEP();
     if (rc != LDB_OK) {
       /* creation failed: reported, fine; the directory must be openable/creatable once the fault is gone */
       fired = iom_fault_fired() - fired0;
@@ -482,12 +502,16 @@ int main(int argc, char **argv) {
     run_workload(&h, nb, read_side, &st);
     /* recovery under the same rule: a clean close and an open while the fault is still armed */
     ldb_verif_wait_idle(h.db);
+    STEP();
     dbh_close(&h);
+    STEP();
     rc = dbh_open(&h, 0);
+    STEP();
     if (rc != LDB_OK) { reopened_ok = 0; vh_count("cases_reopen_failed_under_fault", 1); }
     fired = iom_fault_fired() - fired0;
     iom_fault_clear();
     if (reopened_ok) ldb_verif_wait_idle(h.db);
+    STEP();
     /* variant B: process kill now (directory copied as-is while the handle is idle) */
     iom_pause(1);
     vh_copy_dir(dir, kdir);
